@@ -81,6 +81,35 @@ def run(ctx):
         ctx.ob("R2", "elements(%s)" % v, not bad, ctx.where(body),
                "an element pair with `$_` on one side leads to failure" if bad else
                "element pairs are skipped or delegated to unify (covered by R1)")
+    # R2b: where `$_` ends an element-wise unification early (tail position), the set returned is the running set —
+    # `$_` must not change (here: drop) any binding made for the earlier elements
+    from sym import Walker, strip, show
+    sp = ("param", 1, body.locals[1].get("name") or "")
+    op_ = ("param", 2, body.locals[2].get("name") or "")
+    ssp = ("param", 3, body.locals[3].get("name") or "")
+    w = Walker(body, max_visits=3)
+    for v in ("SComplex", "SLinkedList"):
+        bad = None
+        n = 0
+        for p in w.paths({sp: frozenset([v]), op_: frozenset([v])}):
+            if p.end != "return" or not (p.ret[0] == "agg" and p.ret[2] == "Some"):
+                continue
+            anon_hit = any(e["k"] == "branch" and e["value"] is True and e["cond"][0] == "call" and e["cond"][1].endswith("::eq")
+                           and any(isinstance(a, tuple) and a[0] == "agg" and a[2] == "Anonymous" for a in e["cond"][2])
+                           and not utable.is_anon_test(e["cond"]) for e in p.events)
+            if not anon_hit:
+                continue
+            ucalls = [e for e in p.calls() if e["callee"].endswith("Unifiable::unify")]
+            if v == "SComplex" and not ucalls:
+                continue     # `$_` in functor position / empty terms: outside the universe (see C06/R4)
+            n += 1
+            running = ("field", ucalls[-1]["result"], "Some.0") if ucalls else ssp
+            pl = strip(dict(p.ret[3]).get("0"))
+            if pl != running:
+                bad = (pl, running)
+        ctx.ob("R2", "anon-keeps-running-set(%s)" % v, bad is None and n > 0, ctx.where(body),
+               "after `$_` matched, the arm returns %s instead of the running set %s: bindings made for earlier elements are lost"
+               % (show(bad[0]), show(bad[1])[:80]) if bad else "every success after a `$_` match returns the running set (%d paths)" % n)
     # R3
     verdict_fns = [b for b in prog.lib_bodies() if b.kind != "Closure" and
                    re.match(r"^std::option::Option<std::rc::Rc<std::vec::Vec<std::option::Option<std::rc::Rc<unifiable::Unifiable>>>>>$",
